@@ -204,7 +204,9 @@ func (r *trRun) behaviour(b Behaviour) {
 		r.res.Inconclusive = append(r.res.Inconclusive, b.ID+": "+err.Error())
 		return
 	}
-	peersCh, err := topic.WatchPeers(ctx)
+	watchCtx, stopWatch := context.WithCancel(ctx)
+	defer func() { stopWatch() }()
+	peersCh, err := topic.WatchPeers(watchCtx)
 	if err != nil {
 		r.res.Inconclusive = append(r.res.Inconclusive, b.ID+": "+err.Error())
 		return
@@ -285,6 +287,34 @@ func (r *trRun) behaviour(b Behaviour) {
 			if len(set) != len(wantSet) {
 				r.violate(si, "membership", "Peers() differs from the last membership snapshot", st.State["members"], cur)
 			}
+		case "Rewatch":
+			// the reader of the membership goes away (its store is closed) and another one comes: same adapter, same topic name
+			stopWatch()
+			select {
+			case _, ok := <-peersCh:
+				for ok {
+					_, ok = <-peersCh
+				}
+			case <-time.After(3 * time.Second):
+				r.res.Inconclusive = append(r.res.Inconclusive, b.ID+": the stopped watcher does not end")
+				return
+			}
+			watchCtx, stopWatch = context.WithCancel(ctx)
+			t2, err := ps.TopicSubscribe(ctx, "t")
+			if err != nil {
+				r.res.Inconclusive = append(r.res.Inconclusive, b.ID+": "+err.Error())
+				return
+			}
+			topic = t2
+			if peersCh, err = topic.WatchPeers(watchCtx); err != nil {
+				r.res.Inconclusive = append(r.res.Inconclusive, b.ID+": "+err.Error())
+				return
+			}
+			if !waitAsked() {
+				r.res.Inconclusive = append(r.res.Inconclusive, b.ID+": the new watcher does not poll")
+				return
+			}
+			gotEvents = 0
 		case "Publish":
 			p := asStr(st.Args[0])
 			sent++
@@ -442,6 +472,18 @@ func (r *trRun) oneOnOne() {
 			r.res.Comparisons++
 			if fmt.Sprint(gotL) != fmt.Sprint(want) {
 				r.violate(k, "pairwise", "payloads received over the pairwise channel differ from those the other end sent (own messages must not come back)", want, gotL)
+			}
+		}
+		// a third peer publishes on the pairwise topic (its name is derived from the two peer ids, anybody can compute it):
+		// nothing may be delivered as coming from the other end of the pair
+		third := &sNode{net: net, id: newPeerID(fmt.Sprintf("C%d-%d", k, rng.Int()))}
+		_ = third.Publish(ctx, topics[0], []byte("third-party"))
+		r.res.Comparisons++
+		for _, n := range []*sNode{a, b} {
+			select {
+			case g := <-recv[n]:
+				r.violate(k, "pairwise", fmt.Sprintf("a payload published on the pairwise topic by a third peer was delivered and attributed to the other end of the pair (%q)", g.data), nil, g.from.String())
+			case <-time.After(30 * time.Millisecond):
 			}
 		}
 		// a third store of A's instance has the same peer join (its Connect finds the channel there); the two stores that
